@@ -1107,6 +1107,10 @@ class Tensor:
 
         if op_kwargs is None:
             op_kwargs = {}
+        elif isinstance(op_kwargs.get("where"), Tensor):
+            # A mask can be specified as a tensor; NumPy would dispatch such
+            # a mask back to mygrad. The op only ever needs the mask's array.
+            op_kwargs = {**op_kwargs, "where": op_kwargs["where"].data}
 
         f = Op()
 
